@@ -17,12 +17,15 @@ KINDS = [
  "an unusual PLACEMENT of otherwise ordinary inputs: sub-slices of larger buffers, odd addresses, aliasing/overlapping buffers, capacity beyond length, duplicate or nested or look-alike names, files that are prefixes/suffixes of each other.",
  "a specific answer of the environment: a short or failing read/write at one particular call, a directory where a file is expected, the order in which a directory listing is returned, pre-existing files with conflicting names, a working directory different from the archive's.",
  "a rarely used combination of options or code path: DoubleCheck / VerifyAllData / -a, goroutine counts of 1 or far larger than the work, the non-SSSE3 dispatch path, the staged exported API (NewEncoder/NewDecoder and their methods) used in a legitimate but unusual order.",
+ "two cooperating sites that each look fine alone: one site establishes an invariant (an ordering, a padding, a length, an index base, a normalisation) that another site relies on, and your change makes them disagree only for a rare shape of input. Say in meta.json which two sites.",
+ "an error path: what is left behind AFTER an error was returned or a fault happened (partially updated state, a retry of the same call, cleanup, the next call on the same object or directory). The first, failing call must itself still behave correctly.",
+ "the INTERACTION of two features that are each tested alone: e.g. sub-directories x displaced slices, non-saved PAR1 entries x missing volumes, duplicate slices x several goroutines, comment packets x unknown packets, Unicode names x repair, empty files x anything.",
 ]
 for i, p in enumerate(props):
     pid = p['id']
     wt = '/tmp/seed%d-%s' % (rnd, pid)
     o = wt + '-out'
-    kind = KINDS[(i + rnd) % len(KINDS)]
+    kind = KINDS[(i * 3 + rnd) % len(KINDS)] if rnd >= 7 else KINDS[(i + rnd) % 5]
     own = '\n'.join('- %s (files: %s)' % (s[:330], ', '.join(f)) for s, f in used.get(pid, []))
     others = '\n'.join('- [%s] %s' % (q, s[:125]) for q in sorted(used) if q != pid for s, f in used[q])
     anchored = p.get('code_anchors') or p.get('anchors') or p.get('code') or ''
